@@ -188,6 +188,14 @@ type shard struct {
 	mat   [][]string
 	pairs [][2]int
 	pobs  [][2]string
+	rules []ruleIdx
+}
+
+type ruleIdx struct {
+	i, j   int
+	expect string
+	rule   string
+	ij, ji string
 }
 
 func (sh *shard) add(s string) int {
@@ -200,7 +208,7 @@ func (sh *shard) add(s string) int {
 	return i
 }
 
-func buildShard(e ecoDef, k int, r *rand.Rand, fixtures []string, pool, extra int) *shard {
+func buildShard(e ecoDef, k int, r *rand.Rand, fixtures []string, pool, extra, nrules int) *shard {
 	g := &gen{r}
 	sh := &shard{eco: e, k: k, index: map[string]int{}}
 	fix := func() string {
@@ -209,7 +217,10 @@ func buildShard(e ecoDef, k int, r *rand.Rand, fixtures []string, pool, extra in
 		}
 		return fixtures[r.Intn(len(fixtures))]
 	}
-	// --- pool: tie families + bases with variants + fixtures + malformed
+	// --- pool: special markers of the ecosystem (always together), tie families, bases with variants, fixtures, malformed
+	for _, s := range markers[e.kind] {
+		sh.add(s)
+	}
 	for _, s := range []string{"1", "1.0", "1.00", "1.0.0"} {
 		sh.add(s)
 	}
@@ -276,6 +287,11 @@ func buildShard(e ecoDef, k int, r *rand.Rand, fixtures []string, pool, extra in
 		ib := sh.add(b)
 		sh.pairs = append(sh.pairs, [2]int{ia, ib})
 	}
+	// --- canonical-rule cases: published chains (fixed) + rule-constructed pairs (fresh per shard)
+	rcs := append(publishedChains(e.kind), ruleCases(e.kind, g, nrules)...)
+	for _, rc := range rcs {
+		sh.rules = append(sh.rules, ruleIdx{i: sh.add(rc.a), j: sh.add(rc.b), expect: rc.expect, rule: rc.rule})
+	}
 	// --- observe
 	for _, s := range sh.strs {
 		sh.pars = append(sh.pars, observeParse(e.name, s))
@@ -289,6 +305,13 @@ func buildShard(e ecoDef, k int, r *rand.Rand, fixtures []string, pool, extra in
 	}
 	for _, p := range sh.pairs {
 		sh.pobs = append(sh.pobs, [2]string{observe(e.name, sh.strs[p[0]], sh.strs[p[1]]), observe(e.name, sh.strs[p[1]], sh.strs[p[0]])})
+	}
+	for k := range sh.rules {
+		r := &sh.rules[k]
+		r.ij, r.ji = observe(e.name, sh.strs[r.i], sh.strs[r.j]), observe(e.name, sh.strs[r.j], sh.strs[r.i])
+		// rule pairs are also ordinary pairs: correspondence with the model and the symmetric laws apply to them
+		sh.pairs = append(sh.pairs, [2]int{r.i, r.j})
+		sh.pobs = append(sh.pobs, [2]string{r.ij, r.ji})
 	}
 	return sh
 }
@@ -333,6 +356,11 @@ func (sh *shard) coq(withModel bool) string {
 		ps[i] = fmt.Sprintf("{| pc_i := %d; pc_j := %d; pc_ij := %s; pc_ji := %s |}", p[0], p[1], oc(sh.pobs[i][0]), oc(sh.pobs[i][1]))
 	}
 	sb.WriteString(cf.Chunked("pairs", "pcase", ps, 250))
+	rs := make([]string, len(sh.rules))
+	for i, r := range sh.rules {
+		rs[i] = fmt.Sprintf("{| rc_i := %d; rc_j := %d; rc_expect := %s; rc_ij := %s; rc_ji := %s |}", r.i, r.j, r.expect, oc(r.ij), oc(r.ji))
+	}
+	sb.WriteString(cf.Chunked("rules", "rcase", rs, 250))
 	e := kd.eco
 	sb.WriteString("Definition ms := Eval vm_compute in ms_tbl " + e + " tbl.\n")
 	for _, d := range [][2]string{
@@ -344,6 +372,7 @@ func (sh *shard) coq(withModel bool) string {
 		{"spec_antisym_total_bad", "spec_antisym_total " + e + " tbl mat"},
 		{"spec_pairs_bad", "spec_pairs " + e + " tbl pairs"},
 		{"spec_trans_bad", "spec_trans " + e + " tbl mat"},
+		{"spec_rules_bad", "spec_rules rules"},
 		{"in_domain_count", "[in_domain " + e + " tbl mat]"},
 	} {
 		sb.WriteString("Definition " + d[0] + " := Eval vm_compute in " + d[1] + ".\nPrint " + d[0] + ".\n")
@@ -380,6 +409,9 @@ func (sh *shard) jsonl(enc *json.Encoder) {
 			enc.Encode(map[string]any{"t": "pair", "src": "matrix", "eco": sh.eco.name, "shard": sh.k, "i": i, "j": j, "ij": sh.mat[i][j], "ji": sh.mat[j][i], "nt": nt(i, j)})
 		}
 	}
+	for n, r := range sh.rules {
+		enc.Encode(map[string]any{"t": "rule", "eco": sh.eco.name, "shard": sh.k, "n": n, "i": r.i, "j": r.j, "expect": r.expect, "rule": r.rule, "ij": r.ij, "ji": r.ji})
+	}
 	for n, p := range sh.pairs {
 		enc.Encode(map[string]any{"t": "pair", "src": "extra", "eco": sh.eco.name, "shard": sh.k, "n": n, "i": p[0], "j": p[1], "ij": sh.pobs[n][0], "ji": sh.pobs[n][1], "nt": nt(p[0], p[1])})
 	}
@@ -401,9 +433,10 @@ func main() {
 	outdir := flag.String("outdir", "", "directory for the generated .v files")
 	side := flag.String("jsonl", "", "side file (one JSON record per line)")
 	seed := flag.Int64("seed", 1, "PRNG seed")
-	pool := flag.Int("pool", 40, "pool size per ecosystem shard (all pairs and triples)")
+	pool := flag.Int("pool", 48, "pool size per ecosystem shard (all pairs and triples)")
 	extra := flag.Int("extra", 150, "further random pairs per ecosystem shard")
 	shards := flag.Int("shards", 1, "shards per ecosystem")
+	nrules := flag.Int("rules", 64, "rule-constructed canonical pairs per ecosystem shard (besides the published chains)")
 	testdata := flag.String("testdata", "/repo/semantic/testdata", "fixture directory")
 	only := flag.String("kinds", "", "comma separated model families to run (default: all that have a Coq printer)")
 	replay := flag.String("replay", "", "replay file: {\"case\":{\"eco\":..., \"hex\":[...]}}")
@@ -437,14 +470,14 @@ func main() {
 		for k := 0; k < *shards; k++ {
 			// one PRNG stream per (seed, ecosystem, shard): identical case list for identical flags
 			r := rand.New(rand.NewSource(*seed*1000003 + int64(ei)*1009 + int64(k)))
-			sh := buildShard(e, k, r, fixtures, *pool, *extra)
+			sh := buildShard(e, k, r, fixtures, *pool, *extra, *nrules)
 			name := fmt.Sprintf("C07_%s_%d", slug(e.name), k)
 			if err := os.WriteFile(filepath.Join(*outdir, name+".v"), []byte(sh.coq(false)), 0o644); err != nil {
 				panic(err)
 			}
 			sh.jsonl(enc)
 			files = append(files, name)
-			enc.Encode(map[string]any{"t": "shard", "eco": e.name, "kind": e.kind, "shard": k, "file": name, "strings": len(sh.strs), "pool": sh.pool, "pairs": len(sh.pairs), "fixtures": len(fixtures)})
+			enc.Encode(map[string]any{"t": "shard", "eco": e.name, "kind": e.kind, "shard": k, "file": name, "strings": len(sh.strs), "pool": sh.pool, "pairs": len(sh.pairs), "rules": len(sh.rules), "fixtures": len(fixtures)})
 		}
 	}
 	enc.Encode(map[string]any{"t": "summary", "raw_out_of_range": rawOutOfRange, "files": files})
